@@ -9,7 +9,7 @@ package lockedfile
 // file description behind the *os.File f (0 unlocked, 1 shared, 2 exclusive),
 // fdClosed[f], fdPath[f]; fsBytes/fsSize are the byte-level file contents.
 
-//@ property C06: openFile, closeFile, OpenFile, Open, Create, Edit, (*File).Close, lockedfile/internal/filelock/lock, lockedfile/internal/filelock/unlock, lockedfile/internal/filelock/Lock, lockedfile/internal/filelock/RLock, lockedfile/internal/filelock/Unlock, lockedfile/internal/filelock/(lockType).String
+//@ property C06: (*Mutex).Lock, Lock$1, openFile, closeFile, OpenFile, Open, Create, Edit, (*File).Close, lockedfile/internal/filelock/lock, lockedfile/internal/filelock/unlock, lockedfile/internal/filelock/Lock, lockedfile/internal/filelock/RLock, lockedfile/internal/filelock/Unlock, lockedfile/internal/filelock/(lockType).String
 //@ property C07: openFile, closeFile, OpenFile, Edit, (*File).Close, Transform, Transform$1, Read, Write
 
 // lock mode demanded by the open flags: write access means exclusive
@@ -147,3 +147,21 @@ package lockedfile
 //@   ensures forall p int {fsWrites[p]} :: p != sid(name) ==> fsWrites[p] == old(fsWrites)[p]
 //@   at call io.Copy#1: requires fdMode[f.osFile.File] == 2 && !fdClosed[f.osFile.File] && fdPath[f.osFile.File] == sid(name)
 //@   ensures forall p int {fsBytes[p]} {fsSize[p]} :: p != sid(name) ==> fsBytes[p] == old(fsBytes)[p] && fsSize[p] == old(fsSize)[p]
+
+// Mutex.Lock: the lock is an exclusive lock on a fresh descriptor of mu.Path; the
+// returned unlock function only unlocks and closes that descriptor (it does not
+// touch the file's name or contents).
+//@ extern (*sync.Mutex).Lock(m)
+//@   pure
+//@ extern (*sync.Mutex).Unlock(m)
+//@   pure
+//@ func (*Mutex).Lock
+//@   names (unlock, err)
+//@   requires mu != nil && mu.Path != ""
+//@   modifies fsExists, fsData, fsSize, fsBytes, fdPath, fdMode, fdClosed, failBudget, F_S_lockedfile_File_*
+//@   at call lockedfile.OpenFile#1: requires flag & 3 == 2 && flag & 512 == 0
+//@   ensures fsBytes == old(fsBytes)
+//@ func Lock$1
+//@   requires mu != nil && f != nil && !f.closed
+//@   modifies fdMode, fdClosed, F_S_lockedfile_File_closed
+//@   ensures f.closed && fdClosed[f.osFile.File] && fdMode[f.osFile.File] == 0
